@@ -288,6 +288,7 @@ def run(rep, tier):
             ok = ok and bool(fresh)
         rep.check(ok, "R5.6", "forkworker|" + f.qname, "ForkWorker returns a fresh worker", "%s does not return a freshly created worker" % f.qname, f.loc())
     check_worker_effects(rep, allF)
+    check_merged_once(rep, allF)
     rep.assumptions += ["exception edges are not modelled (a throwing NextFrame leaves the mutex held; exception safety is not claimed)",
                         "SynchronizeThreads() is treated as one symbolic boolean per run (it is a pure virtual-dispatch constant getter in all applications)",
                         "deadlock freedom and schedule independence are argued from the verified token protocol, not model-checked"]
@@ -844,3 +845,145 @@ def check_ring_size(rep, rn):
         ok = len(id0) == 1 and id0[0]["args"] == [0] and len(idj) == 1 and idj[0]["args"] == [j]
         why = "worker ids are %s / %s, required 0 and the loop counter" % ([str(e["args"]) for e in id0], [str(e["args"]) for e in idj])
     rep.check(ok, "R5.4", "ring-size", "workers 0 .. nthreads_-1 are created (ring modulus nthreads_ = number of workers and of ring mutexes)", "CsgApplication::Run: " + why, rn.loc(rest[0]["node"]) if rest else rn.loc(), sample=True)
+
+
+def worker_aliases(f):
+    """parameters of Worker type and the locals cast from them"""
+    al = {p_["decl"] for p_ in f.j.get("params", []) if "Worker" in (p_.get("type") or "")}
+    changed = True
+    while changed:
+        changed = False
+        for n in f.walk():
+            if n.get("k") != "decl":
+                continue
+            for d in n["decls"]:
+                i0 = unwrap(d.get("init")) if d.get("init") is not None else None
+                while i0 is not None and i0.get("k") in ("cast", "construct") and (i0.get("sub") is not None or len(i0.get("args", [])) == 1):
+                    i0 = unwrap(i0["sub"] if i0.get("sub") is not None else i0["args"][0])
+                if i0 is not None and i0.get("k") == "ref" and i0.get("decl") in al and d["decl"] not in al:
+                    al.add(d["decl"])
+                    changed = True
+    return al
+
+
+RESETS = re.compile(r"::(Clear|clear|setZero|setConstant|Initialize|assign|resize|fill|operator=)$")
+
+
+def check_merged_once(rep, allF):
+    """R5.11: with thread synchronisation MergeWorker runs after EVERY frame of a worker.  Whatever it adds from the worker into the application must be
+    reset before that worker's next frame adds to it again (in MergeWorker, or by EvalConfiguration and the worker methods it calls); otherwise every merge
+    re-adds the frames the worker has already handed over, and the totals depend on how the frames are distributed over the threads."""
+    rep.rule("R5.11", "ordered mode: every worker member that MergeWorker reads is reset between two merges of that worker - by MergeWorker itself or somewhere in the "
+                      "worker's EvalConfiguration call tree (assignment, Clear/clear/setZero/Initialize/...) - so that each frame is merged exactly once")
+    merges = [f for f in allF.overriders(APP + "MergeWorker") if f.j["template"] != "pattern"]
+    rep.floor("R5.11", len(merges), 2, "MergeWorker overrides")
+    for mw in sorted(merges, key=lambda f: f.qname):
+        app = mw.j.get("class") or ""
+        aname = app.split("votca::csg::")[-1]
+        sync = [f for f in allF.find(app + "::SynchronizeThreads") if f.j.get("body")]
+        if sync:
+            rets = [unwrap(n["value"]) for n in sync[0].walk() if n.get("k") == "return" and n.get("value") is not None]
+            if rets and all(r_.get("k") == "bool" and str(r_.get("v")).lower() in ("false", "0") for r_ in rets):
+                rep.holds("R5.11", "merged-once|" + aname, "unordered mode: MergeWorker runs once per worker after the join", mw.loc())
+                continue
+        rep.analysed(mw)
+        wparam = mw.j["params"][0]["decl"] if mw.j.get("params") else None
+        # locals that alias the worker (casts of the parameter)
+        alias = {wparam}
+        wcls = None
+        changed = True
+        while changed:
+            changed = False
+            for n in mw.walk():
+                pairs = []
+                if n.get("k") == "decl":
+                    pairs = [(d["decl"], d.get("init"), d.get("type")) for d in n["decls"] if d.get("init") is not None]
+                elif n.get("k") == "assign" and unwrap(n["lhs"]).get("k") == "ref":
+                    pairs = [(unwrap(n["lhs"]).get("decl"), n["rhs"], unwrap(n["lhs"]).get("type"))]
+                for dcl, init, ty in pairs:
+                    i0 = unwrap(init)
+                    while i0 is not None and i0.get("k") in ("cast", "construct") and (i0.get("sub") is not None or len(i0.get("args", [])) == 1):
+                        i0 = unwrap(i0["sub"] if i0.get("sub") is not None else i0["args"][0])
+                    if i0 is not None and i0.get("k") == "ref" and i0.get("decl") in alias and dcl not in alias:
+                        alias.add(dcl)
+                        changed = True
+                        m_ = re.match(r"^(?:const )?([\w:]+) \*", ty or "")
+                        if m_ and m_.group(1) != APP + "Worker":
+                            wcls = m_.group(1)
+        # functions the worker is handed on to (imc_.MergeWorker(worker), DoCorrelations(worker)), two levels
+        helpers = [mw]
+        frontier = [(mw, alias)]
+        for _lvl in range(3):
+            nxt = []
+            for f_, al_ in frontier:
+                for n in f_.walk():
+                    if n.get("k") in ("mcall", "call") and any(unwrap(a).get("k") == "ref" and unwrap(a).get("decl") in al_ for a in n.get("args", [])):
+                        for g in allF.find(n.get("callee") or ""):
+                            if g.j.get("body") and g not in helpers and g.j.get("template") != "pattern":
+                                helpers.append(g)
+                                nxt.append((g, None))
+            frontier = [(g, worker_aliases(g)) for g, _ in nxt]
+        read = {}
+        reset_in_merge = set()
+        for f in helpers:
+            al = alias if f is mw else worker_aliases(f)
+            for n in f.walk():
+                if n.get("k") == "member" and unwrap(n.get("base") or {}).get("k") == "ref" and unwrap(n["base"]).get("decl") in al:
+                    read.setdefault(n.get("fname"), n)
+                    if wcls is None and "::" in (n.get("field") or ""):
+                        wcls = n["field"].rsplit("::", 1)[0]
+                tgt = None
+                if n.get("k") == "mcall" and RESETS.search(n.get("callee") or "") and n.get("obj") is not None:
+                    tgt = n["obj"]
+                elif n.get("k") == "opcall" and n.get("op") == "=" and n.get("args"):
+                    tgt = n["args"][0]
+                elif n.get("k") == "assign" and n.get("op") == "=":
+                    tgt = n["lhs"]
+                if tgt is not None:
+                    for x in walk(tgt):
+                        if x.get("k") == "member" and unwrap(x.get("base") or {}).get("k") == "ref" and unwrap(x["base"]).get("decl") in al:
+                            reset_in_merge.add(x.get("fname"))
+        if wcls is None or not read:
+            rep.broken("R5.11", "%s::MergeWorker: the worker class or the worker members it reads were not found" % aname)
+            continue
+        evs = [f for f in allF.find(wcls + "::EvalConfiguration") if f.j.get("body")]
+        todo, funcs = list(evs), []
+        while todo:
+            f = todo.pop()
+            if f in funcs:
+                continue
+            funcs.append(f)
+            for n in f.walk():
+                if n.get("k") == "mcall" and (n.get("callee") or "").startswith(wcls + "::") and unwrap(n.get("obj") or {}).get("k") == "this":
+                    todo += [g for g in allF.find(n["callee"]) if g not in funcs and g.j.get("body")]
+        reset_in_eval = set()
+        for f in funcs:
+            rep.analysed(f)
+            loopvars = {}
+            for n in f.walk():
+                if n.get("k") == "rangefor" and n.get("var"):
+                    for x in walk(n["range"]):
+                        if x.get("k") == "member" and unwrap(x.get("base") or {"k": "this"}).get("k") == "this":
+                            loopvars[n["var"]["decl"]] = x.get("fname")
+            for n in f.walk():
+                tgt = None
+                if n.get("k") == "mcall" and RESETS.search(n.get("callee") or "") and n.get("obj") is not None:
+                    tgt = n["obj"]
+                elif n.get("k") == "opcall" and n.get("op") == "=" and n.get("args"):
+                    tgt = n["args"][0]
+                elif n.get("k") == "assign" and n.get("op") == "=":
+                    tgt = n["lhs"]
+                if tgt is None:
+                    continue
+                for x in walk(tgt):
+                    if x.get("k") == "member" and (x.get("base") is None or unwrap(x.get("base")).get("k") == "this"):
+                        reset_in_eval.add(x.get("fname"))
+                    if x.get("k") == "ref" and x.get("decl") in loopvars:
+                        reset_in_eval.add(loopvars[x["decl"]])
+        wrec = allF.records.get(wcls) or {}
+        own = {fl["name"] for fl in wrec.get("fields", [])}
+        stale = sorted(m_ for m_ in read if m_ in own and m_ not in reset_in_merge and m_ not in reset_in_eval)
+        rep.check(not stale, "R5.11", "merged-once|" + aname, "worker members merged per frame (%s) are reset between merges" % ", ".join(sorted(m_ for m_ in read if m_ in own)),
+                  "%s::MergeWorker runs after every frame (SynchronizeThreads() is not switched off) and adds %s of the worker, which neither MergeWorker nor %s::EvalConfiguration "
+                  "ever resets: each merge re-adds the frames that worker has already handed over, so the totals depend on how the frames fall to the threads (--nt)" % (
+                      aname, stale, wcls.split("votca::csg::")[-1]), mw.loc(read[stale[0]]) if stale else mw.loc(), sample=True)
